@@ -3,6 +3,7 @@ package hx
 import (
 	"encoding/json"
 	"math/rand"
+	"os"
 	"os/exec"
 	"regexp"
 	"sort"
@@ -22,7 +23,12 @@ type Facts struct {
 
 // LoadFacts runs srcfacts on /repo.
 func LoadFacts() (*Facts, error) {
-	out, err := exec.Command("/verif/build/srcfacts").Output()
+	cmdline := "/verif/build/srcfacts"
+	if c := os.Getenv("HX_SRCFACTS"); c != "" {
+		cmdline = c
+	}
+	parts := strings.Fields(cmdline)
+	out, err := exec.Command(parts[0], parts[1:]...).Output()
 	if err != nil {
 		return nil, err
 	}
